@@ -135,6 +135,19 @@ type Tx struct {
 	// Hook lets a check customise the interface before the run.
 	Hook func(i *ru.TestRuntimeInterface)
 	Location common.Location
+	// Extra wires the additional callback kinds of extra.go (block queries,
+	// GetOrLoadProgram, RecoverProgram, capability validation hooks, metrics …)
+	// and enables the resource-owner-changed callback. Off by default so that
+	// the traces seen by other checks are unchanged.
+	Extra bool
+	// Faults are further fault points (in addition to Fault); each fires at
+	// its own (Kind, Index). Result.InjectedAt lists the ones reached, in order.
+	Faults []Fault
+	// NoAtreeValidation runs with runtime.Config.AtreeValidationEnabled = false
+	// (the production setting: no per-mutation atree validation and no
+	// Storage.CheckHealth at commit), so that an unhealthy commit is not turned
+	// into a failed transaction before an independent health check can see it.
+	NoAtreeValidation bool
 }
 
 // Result is everything observable from one run.
@@ -151,6 +164,7 @@ type Result struct {
 	Meter   []MeterCall
 	CodeOps []string
 	Injected bool // the fault point was reached
+	InjectedAt []Fault // every fault point reached, in order (Tx.Fault and Tx.Faults)
 	CompUsed uint64
 	MemUsed  uint64
 	LimitHit bool // a gauge returned an error during the run
@@ -243,9 +257,20 @@ func Run(l *Ledger, tx Tx) (res *Result) {
 		idx := res.Calls[kind]
 		res.Calls[kind] = idx + 1
 		res.Trace = append(res.Trace, kind)
-		if tx.Fault != nil && tx.Fault.Kind == kind && tx.Fault.Index == idx {
+		f := tx.Fault
+		if f == nil || f.Kind != kind || f.Index != idx {
+			f = nil
+			for i := range tx.Faults {
+				if tx.Faults[i].Kind == kind && tx.Faults[i].Index == idx {
+					f = &tx.Faults[i]
+					break
+				}
+			}
+		}
+		if f != nil {
 			res.Injected = true
-			switch tx.Fault.Mode {
+			res.InjectedAt = append(res.InjectedAt, *f)
+			switch f.Mode {
 			case 1:
 				panic(ErrInjected)
 			case 2:
@@ -533,7 +558,12 @@ func Run(l *Ledger, tx Tx) (res *Result) {
 		})
 	}
 
-	cfg := runtime.Config{AtreeValidationEnabled: true, StackDepthLimit: tx.StackDepthLimit}
+	cfg := runtime.Config{AtreeValidationEnabled: !tx.NoAtreeValidation, StackDepthLimit: tx.StackDepthLimit}
+	var hostIface runtime.Interface = iface
+	if tx.Extra {
+		cfg.ResourceOwnerChangeHandlerEnabled = true
+		hostIface = wireExtra(iface, faultHit, func(s string) { res.Logs = append(res.Logs, s) })
+	}
 	r := runtime.NewRuntime(cfg)
 
 	args := tx.RawArgs
@@ -554,7 +584,7 @@ func Run(l *Ledger, tx Tx) (res *Result) {
 			loc = common.TransactionLocation{0x1}
 		}
 	}
-	ctx := runtime.Context{Interface: iface, Location: loc, UseVM: tx.UseVM, MemoryGauge: memGauge, ComputationGauge: compGauge}
+	ctx := runtime.Context{Interface: hostIface, Location: loc, UseVM: tx.UseVM, MemoryGauge: memGauge, ComputationGauge: compGauge}
 
 	func() {
 		defer func() {
